@@ -86,6 +86,25 @@ claim(
     _A_NOTE + " Scope decided by a pre-scan with the real MonitoredDeserialiser.",
 )
 
+_B_NOTE = "Data-unit bodies are real encoder output for tiny formats and are only placed under a governing header that frames them (composition rule); the level VALUE table (LEVEL_CONSTRAINTS) is replaced in the harness process by a permissive row so that tiny pictures can carry any level number, while the level ORDERING patterns (LEVEL_SEQUENCE_RESTRICTIONS) and symbol_re are real. Sampling, not proof."
+
+claim(
+    "C01",
+    "B (data-unit channel)",
+    "DESIGN.md §5, §8 C01",
+    "deterministic simulation: seeded search over data-unit histories (drop/duplicate/reorder/insert/substitute/truncate + offset and numbering faults) checked against an independent executable reference model",
+    "Seeded search over histories of up to 14 data units (sequence headers identical/alternative/differing, pictures, first and continuation fragments, padding, auxiliary data, end of sequence) for seeded configurations, profiles, major versions and levels 0, 1-7, 64-66, with structural channel faults, a repair pass and layered parse-offset / picture-number faults. The real validator's verdict must equal that of a ~150-line reference model written from the statement and ST 2042-1 (with its own level-ordering predicates), and every rejection must be a ConformanceError.",
+    _B_NOTE,
+)
+claim(
+    "C10",
+    "B (data-unit channel, sequence histories)",
+    "DESIGN.md §5, §8 C10",
+    "deterministic simulation: seeded search over lists of sequences from different configurations; isolation differential against fresh validator instances",
+    "Seeded search over lists of 1-5 sequences drawn from different configurations (profile, version, level family, fragments, field coding, numbering) with an optional non-conformant sequence at a seeded position. Reference: each sequence validated alone by a fresh real validator. The concatenation must be accepted with exactly the concatenated pictures when all are accepted alone, and rejected with the earlier sequences' pictures delivered unchanged otherwise.",
+    _B_NOTE,
+)
+
 NOT_BUILT = "check not built yet in this tree (planned: DESIGN.md §8); not claimed until it runs clean"
 
 
